@@ -6,6 +6,7 @@ mod c15;
 mod c16;
 mod c17;
 mod c18;
+mod c20;
 mod check;
 mod runner;
 mod streams;
@@ -177,6 +178,7 @@ fn get_check(id: &str) -> Option<&'static dyn check::Check> {
         "C16" => Some(&c16::C16),
         "C17" => Some(&c17::C17),
         "C18" => Some(&c18::C18),
+        "C20" => Some(&c20::C20),
         _ => None,
     }
 }
